@@ -319,6 +319,12 @@ def check_and_load_args(args, parser):
             for marker_pattern in ["*_lock", "*_collected", "*_processed"]:
                 for marker_file in glob.glob(os.path.join(glob.escape(args.output), "*", "aux", marker_pattern)):
                     os.remove(marker_file)
+            # the same holds for the uncompressed copy of a gzipped reference, which --resume does not create again
+            if args.reference:
+                ref_name, outer_ext = os.path.splitext(os.path.basename(args.reference))
+                unpacked_reference = os.path.join(args.output, ref_name)
+                if outer_ext.lower() in ['.gz', '.gzip', '.bgz'] and os.path.isfile(unpacked_reference):
+                    os.remove(unpacked_reference)
         else:
             logger.warning("Output folder already exists, some files may be overwritten.")
 
